@@ -13,6 +13,7 @@
 -/
 import Fc.Text
 import Fc.Holds
+import Fc.CoText
 
 open Fc
 
@@ -26,6 +27,7 @@ structure CaseAcc where
   ops     : Array Op := #[]
   impl    : Array String := #[]
   bad     : Option String := none
+  co      : Option Co.Cfg := none
 
 def CaseAcc.toCase (a : CaseAcc) : Case :=
   { fam := a.fam, mode := a.mode, keyed := a.keyed, n := a.n,
@@ -60,10 +62,20 @@ def projEq (model impl : List String) : String :=
 def words (line : String) : List String :=
   (line.trimAscii.toString.splitOn " ").filter (· ≠ "")
 
+/-- a concurrent-stream case: run the acceptor and the monitors on the implementation's trace -/
+def finishCo (a : CaseAcc) (cfg : Co.Cfg) : IO Unit := do
+  let parsed := a.impl.toList.map (fun l => Co.parseCoEv (words l))
+  if parsed.any (fun p => p == some none) then
+    IO.println s!"R {a.id} eq=0 parse=0"
+  else
+    let evs := parsed.filterMap (fun p => p.join)
+    IO.println s!"R {a.id} {Co.verdict cfg evs}"
+
 def finish (modeArg : String) (a : CaseAcc) : IO Unit := do
-  match a.bad with
-  | some msg => IO.println s!"R {a.id} eq=0 bad={msg}"
-  | none =>
+  match a.bad, a.co with
+  | some msg, _ => IO.println s!"R {a.id} eq=0 bad={msg}"
+  | none, some cfg => finishCo a cfg
+  | none, none =>
     let model := canonDrop ((a.toCase.run).map Ev.text)
     if modeArg = "model" then
       IO.println s!"CASE {a.id}"
@@ -85,6 +97,10 @@ partial def loop (modeArg : String) (h : IO.FS.Stream) (a : CaseAcc) : IO Unit :
   let line ← h.getLine
   if line.isEmpty then return ()
   match words line with
+  | "CASE" :: id :: "co" :: _mode :: term :: shape :: takes :: limits :: _ =>
+    match Co.parseCfg term shape takes limits with
+    | some cfg => loop modeArg h { id := id, co := some cfg }
+    | none => loop modeArg h { id := id, bad := some "co-header" }
   | "CASE" :: id :: fam :: mode :: keyed :: n :: _ =>
     match parseFam fam, parseMode mode, n.toNat? with
     | some f, some m, some k =>
